@@ -370,6 +370,14 @@ func (x *Exec) loopEnter(st *State, fr *Frame, li *loopInfo, from *ssa.BasicBloc
 	}
 	al.pre = st.clone()
 	al.entryAlloc = st.allocCtr
+	// objects may be allocated by earlier iterations: the allocation counter is advanced BEFORE the
+	// cells are havocked, so that a havocked pointer/slice/map variable may refer to such an object
+	// (bounding it by the counter at loop entry made every path through a loop that re-assigns a
+	// slice by append vacuous -- found by seeded change C07-2, see DESIGN.md section 8)
+	oldAlloc := st.allocCtr
+	na := x.declare(st, "alloc", "Int")
+	x.assume(st, app(">=", na, oldAlloc))
+	st.allocCtr = na
 	// 2. havoc everything the loop may write
 	ms := x.loopMods(fr.fn, li)
 	for _, a := range sortedAllocs(ms.cells) {
@@ -401,10 +409,6 @@ func (x *Exec) loopEnter(st *State, fr *Frame, li *loopInfo, from *ssa.BasicBloc
 			}
 		}
 	}
-	oldAlloc := st.allocCtr
-	na := x.declare(st, "alloc", "Int")
-	x.assume(st, app(">=", na, oldAlloc))
-	st.allocCtr = na
 	names := map[string]bool{}
 	for _, n := range sortedKeys(keysOf(ms.arrays)) {
 		x.getArr(st, n, ms.arrays[n])
